@@ -12,7 +12,7 @@ import itertools, os, random, shutil, uuid
 from .common import Verdict, outcome_of_exception, WORK
 
 ID = "C09"
-GEN = []
+GEN = ["Coll"]
 RULE = ("rule sets = 1..4 plain rules (named and/or with id), 0..3 correlation rules referring by name or id (chains up to "
         "depth 3, generate on/off), unrelated rules interleaved, optionally a missing reference; x permutations of the "
         "documents (all for <= 5 documents at quick / <= 6 at thorough, sampled beyond) x load paths {from_yaml, from_dicts, "
@@ -21,7 +21,7 @@ ASSUMPTIONS = [
     "rule names and ids are unique within a rule set (a later duplicate replaces an earlier one in the implementation's tables: modelled, not generated)",
     "the test backend's correlation templates are used to convert correlation rules",
 ]
-PATHS = ["from_yaml", "from_dicts", "merge", "load_ruleset"]
+PATHS = ["from_yaml", "from_dicts", "merge", "load_ruleset", "remerge"]
 
 
 def rid(i):
@@ -113,6 +113,18 @@ def load(docs, path, tag):
         a = SigmaCollection.from_dicts(copy.deepcopy(docs[:h]), resolve_references=False)
         b = SigmaCollection.from_dicts(copy.deepcopy(docs[h:]), resolve_references=False) if docs[h:] else None
         return SigmaCollection.merge([c for c in (a, b) if c is not None])
+    if path == "remerge":
+        # merged collections, where the collection holding the correlation rules was merged (and so resolved) once before
+        # with OTHER rule objects of the same names/ids: the second merge must resolve against the collection at hand
+        import copy
+        corr = [d for d in docs if "correlation" in d]
+        plain = [d for d in docs if "correlation" not in d]
+        pack = SigmaCollection.from_dicts(copy.deepcopy(corr), resolve_references=False)
+        decoy_docs = copy.deepcopy(plain)
+        for d in decoy_docs:
+            d["detection"] = {"sel": {"decoy": d["title"]}, "condition": "sel"}
+        SigmaCollection.merge([pack, SigmaCollection.from_dicts(decoy_docs, resolve_references=False)])
+        return SigmaCollection.merge([pack, SigmaCollection.from_dicts(copy.deepcopy(plain), resolve_references=False)])
     d = os.path.join(WORK, "tmp_c09", tag)
     shutil.rmtree(d, ignore_errors=True)
     os.makedirs(d)
@@ -195,6 +207,8 @@ def judge(case, impl, reply):
     want_out = [q for i in impl["order"] for q in (impl["results"][docs[i]["title"]] if impl["flags"][docs[i]["title"]] else [])]
     if impl["output"] != want_out:
         return Verdict("violation", f"emitted queries {impl['output']} are not the output-enabled rules' queries in rule order {want_out}", has_ref, key, tags=tuple(tags))
+    if case["path"] == "remerge":
+        return Verdict("ok", "", has_ref, key, tags=tuple(tags + ["nodrift:merge-order"]))         # correlation rules first, then the plain rules
     if case["path"] == "load_ruleset":
         return Verdict("ok", "", has_ref, key, tags=tuple(tags + ["nodrift:glob-order"]))   # file enumeration order is the OS's
     if impl["order"] != reply["modelOrder"] or [impl["flags"][d["title"]] for d in docs] != reply["modelFlags"]:
